@@ -92,6 +92,9 @@ class Model:
                 self.ev(st[1], env, obj, cname, out)
             elif k == "setfield":
                 obj["fields"][st[1]] = self.ev(st[2], env, obj, cname, out)
+            elif k == "bump_shared":
+                root = self.ancestors(cname)[-1]
+                self.statics[(root, "shared")] = self.statics.get((root, "shared"), 0) + 1
             elif k == "ret":
                 return self.ev(st[1], env, obj, cname, out)
         return None
@@ -118,6 +121,8 @@ class Model:
             return self.call_virtual(cname, obj, e[1], [], out)
         if k == "static":
             return self.statics.get((e[1], "cnt"), 0)
+        if k == "shared":
+            return self.statics.get((self.ancestors(cname)[-1], "shared"), 0)
         raise ValueError(e)
 
     def destroy(self, obj, out):
@@ -180,6 +185,8 @@ def rexpr(e):
         return ("this.%s()" if e[2] else "%s()") % e[1]
     if k == "static":
         return "%s.cnt" % e[1]
+    if k == "shared":
+        return "shared"
     raise ValueError(e)
 
 
@@ -195,6 +202,8 @@ def rbody(body, ind):
             out.append('%secho("%s" + %s);' % (pad, st[1], rexpr(st[2])))
         elif k == "inc_static":
             out.append("%s%s.cnt = %s.cnt + 1;" % (pad, st[1], st[1]))
+        elif k == "bump_shared":
+            out.append("%sshared = shared + 1;" % pad)
         elif k == "eval":
             tmp += 1
             out.append("%sint %s = %s;" % (pad, st[2], rexpr(st[1])))
@@ -288,6 +297,8 @@ class Gen:
                 methods["inner%d" % i] = dict(virtual=False, mods="", params=[], body=[
                     ("echo", "%s.inner" % name), ("eval", ("thiscall", "vm", False), self.fresh("t")),
                     ("ret", ("thiscall", "vm", True))])
+            methods["bump%d" % i] = dict(virtual=False, mods="", params=[], body=[
+                ("bump_shared",), ("ret", ("shared",))])
             methods["get%d" % i] = dict(virtual=False, mods="", params=[], body=[
                 ("ret", ("add", ("static", name), ("field", fields[0][0]) if fields else ("int", 0)))])
             dtor = r.random() < 0.75
@@ -300,8 +311,12 @@ class Gen:
         decls = []
         for name in (order or m.order):
             c = m.classes[name]
-            L = ["class %s%s {" % (name, " extends " + c["base"] if c["base"] else "")]
+            # a base may be written with a qualified name; the last part names the class
+            qual = self.r.choice(["", "", "", "pkg.", "a.b."]) if c["base"] else ""
+            L = ["class %s%s {" % (name, " extends " + qual + c["base"] if c["base"] else "")]
             L.append("    public static int cnt = 0;")
+            if not c["base"]:
+                L.append("    public static int shared = 0;")
             for fn, init in c["fields"]:
                 L.append("    public int %s%s;" % (fn, " = " + rexpr(init) if init is not None else ""))
             for sig, ct in c["ctors"].items():
@@ -338,7 +353,22 @@ class Gen:
                 sigs.add((r.choice(pool),))
             else:
                 sigs.add((r.choice(pool), r.choice(pool)))
+        if r.random() < 0.6:
+            # a "diamond": (long,int), (int,long), (int,int) - or its class analogue - in random
+            # order; a call with the most specific argument types has exactly one best match
+            if r.random() < 0.5 or len(m.order) < 2:
+                tri = [("long", "int"), ("int", "long"), ("int", "int")]
+            else:
+                sub = [c for c in m.order if m.classes[c]["base"]]
+                if sub:
+                    d = r.choice(sub)
+                    b = m.classes[d]["base"]
+                    tri = [(b, d), (d, b), (d, d)]
+                else:
+                    tri = [("long", "int"), ("int", "long"), ("int", "int")]
+            sigs.update(tri)
         self.ov = sorted(sigs)
+        r.shuffle(self.ov)
         L = ["class U {", "    public constructor() -> U = default;"]
         for sig in self.ov:
             ps = ", ".join("%s p%d" % (t, i) for i, t in enumerate(sig))
@@ -422,7 +452,7 @@ class Gen:
                 continue
             if k < 0.52:
                 own = [mn for a in m.ancestors(st) for mn in m.classes[a]["methods"]
-                       if mn.startswith(("sup", "inner", "get"))]
+                       if mn.startswith(("sup", "inner", "get", "bump"))]
                 if own:
                     mn = r.choice(own)
                     emit(depth, "echo(%s.%s());" % (v, mn))
@@ -433,7 +463,7 @@ class Gen:
             if k < 0.66:
                 # overload call with static argument types
                 atypes, asrc = [], []
-                for _ in range(r.choice([1, 1, 1, 2])):
+                for _ in range(r.choice([1, 1, 2, 2])):
                     q = r.random()
                     if q < 0.5:
                         t = r.choice(PRIMS)
@@ -452,11 +482,21 @@ class Gen:
                     out.append("ov(%s)" % ",".join(sig))
                     out.append(str(len(sig)))
                 continue
-            if k < 0.72:
+            if k < 0.69:
                 c = r.choice(m.order)
                 emit(depth, "echo(%s.sm());" % c)
                 out.append("%s.sm" % c)
                 out.append(str(m.statics.get((c, "cnt"), 0)))
+                continue
+            if k < 0.72:
+                # a static declared in the root class, reached through a (derived) class name
+                c = r.choice(m.order)
+                root = m.ancestors(c)[-1]
+                if r.random() < 0.5:
+                    emit(depth, "%s.shared = %s.shared + 10;" % (c, c))
+                    m.statics[(root, "shared")] = m.statics.get((root, "shared"), 0) + 10
+                emit(depth, "echo(%s.shared);" % c)
+                out.append(str(m.statics.get((root, "shared"), 0)))
                 continue
             if k < 0.78 and st in self.shows or (k < 0.78 and any(a in self.shows for a in m.ancestors(st))):
                 p = next(a for a in m.ancestors(st) if a in self.shows)
